@@ -291,8 +291,14 @@ pub fn fmt_selector(sel: &Selector, st: &mut CssStyle) -> String {
     for (comb, c) in &sel.rest {
         match comb {
             Comb::Desc => {
-                // at least one whitespace character
-                if !st.minify && st.chance(1, 4) {
+                // at least one whitespace character; a comment with white space on both
+                // sides is still just a descendant combinator
+                if st.comments && st.chance(1, 4) {
+                    let k = st.below(COMMENTS.len());
+                    s.push(' ');
+                    s.push_str(COMMENTS[k]);
+                    s.push(' ');
+                } else if !st.minify && st.chance(1, 4) {
                     s.push_str("  ");
                 } else if !st.minify && st.chance(1, 6) {
                     s.push_str("\n");
@@ -313,6 +319,13 @@ pub fn fmt_selector(sel: &Selector, st: &mut CssStyle) -> String {
             }
         }
         s.push_str(&fmt_compound(c));
+    }
+    // a comment with white space around it after the selector (before '{' or ',')
+    if st.comments && st.chance(1, 6) {
+        let k = st.below(COMMENTS.len());
+        s.push(' ');
+        s.push_str(COMMENTS[k]);
+        s.push(' ');
     }
     s
 }
